@@ -113,6 +113,18 @@ def gen_cases(tier, seed):
             arr = []
             h0 = build(cfgv, -1, k, NEG, deltas, True)
             yield h0.case(5000, 'neg switch off')
+    # the windows are the configured ones unless a session change was ACCEPTED: a session reply that is refused (wrong echo, other
+    # service, truncated, negative) must leave the windows of the following requests alone
+    good = bytes([0x50, 3, 0x0F, 0xA0, 0x07, 0xD0])       # P2 = 4 s, P2* = 20 s
+    for bad in (bytes([0x50, 2]) + good[2:], b'\x51\x03' + good[2:], good[:5], b'\x7f\x10\x22', good + b'\x00'):
+        for ex in (1, 0):
+            for req_to in (-1, 640 * U):
+                cfgv = list(cl.DEFAULT_CFG)
+                cfgv[cl.EX_UNX] = cfgv[cl.EX_INV] = cfgv[cl.EX_NEG] = ex
+                cfgv[cl.REQ_TO], cfgv[cl.P2], cfgv[cl.P2S] = req_to, 32 * U, 96 * U
+                h = cl.H(cfgv).call(2, [3], [], [(10, bad)])
+                h.call(6, [], [], [(33 * U, POS)]).call(6, [], [], [(10, PENDING), (10 + 97 * U, POS)])
+                yield h.case(5000, 'after a refused session change')
     n = 3000 if tier == 'quick' else 300000
     for _ in range(n):
         cfgv = list(cl.DEFAULT_CFG)
@@ -162,6 +174,19 @@ def t_sent(c):
 
 
 def oracle(c, r):
+    if c.tag == 'after a refused session change':
+        cfgv, ops = cl.case_ops(c)
+        calls = cl.parse_calls(r, 3)[0]
+        if calls[0]['kind'] == 'ok':
+            return None         # (a trailing byte is tolerated by some editions: then the change counts as accepted)
+        for i, want in ((1, [32 * U]), (2, [32 * U, 96 * U])):
+            got = [e[1] for e in calls[i]['events'] if e[0] == 'W']
+            dl = cfgv[cl.REQ_TO]
+            if got != want:
+                return ('windows-after-refused-session-change', 'request %d after a refused session reply waited %r us, the configured windows are %r' % (i, got, want))
+            if not (calls[i]['kind'] == 'raised' and calls[i]['err'] == 4):
+                return ('timeout-after-refused-session-change', 'request %d: a reply outside the configured window was delivered (%s)' % (i, calls[i]['kind']))
+        return None
     cfgv, timeout, arr = case_info(c)
     # only schedules made of pending frames followed by one final frame are judged by the timing Spec
     kinds = []
